@@ -138,6 +138,275 @@ pub fn run_c01(args: &Args) -> Report {
     rep
 }
 
+fn sniff(content: &[u8]) -> &'static str {
+    match content.iter().position(|b| *b == b'\n') {
+        Some(i) if i > 0 && content[i - 1] == b'\r' => "\r\n",
+        _ => "\n",
+    }
+}
+
+/// byte scan: every line terminator in `data` is `le`
+fn scan_le(data: &[u8], le: &str) -> Option<usize> {
+    for i in 0..data.len() {
+        if data[i] == b'\n' {
+            let crlf = i > 0 && data[i - 1] == b'\r';
+            if crlf != (le == "\r\n") {
+                return Some(i);
+            }
+        } else if data[i] == b'\r' && (i + 1 >= data.len() || data[i + 1] != b'\n') {
+            return Some(i);
+        }
+    }
+    None
+}
+
+pub fn run_c12(args: &Args) -> Report {
+    let mut rep = Report::new("C12", "M5", &args.replay_dir);
+    let model = Model::new(&args.model, &args.work);
+    let mut rng = Rng::new(args.seed.wrapping_mul(1000).wrapping_add(args.shard as u64).wrapping_add(0xC12));
+    let total = if args.thorough() { 40000 } else { 1200 };
+    let n = total / args.shards.max(1);
+    let opts = GenOpts { crlf_pct: 50, error_pct: 3, ..GenOpts::default() };
+    rep.rule = "projects from the C01 generator with the line ending of every source line, static file, command output (printf with \\n and \\r\\n), temp body and stored tag content chosen independently (50% CRLF first lines, 15% mixed files). Oracle on the implementation: byte scan of every generated file (output of each source, and its temp files): every \\n is preceded by \\r iff the first line of that source ends in CRLF, and no lone \\r. Also compared with the model (M5). distinct_nontrivial = distinct generator signatures x source line ending.".to_string();
+    let mut runner = Runner::new(args, "c12");
+    let mut scans = 0u64;
+    for i in 0..n {
+        let p = gen_project(&mut rng, &opts);
+        materialize(&p, &runner.dir);
+        let mut cfg = RunCfg::build_all();
+        cfg.threads = 1 + rng.below(4);
+        cfg.trailing = !rng.chance(1, 4);
+        let mut sig = p.sig.clone();
+        let idx = runner.run_here(&cfg, &p.cmds, vec![], &format!("project #{i}"));
+        let c = &runner.cases[idx];
+        if c.imp.verdict == "ok" {
+            for s in &p.sources {
+                let content = &p.files.iter().find(|f| &f.0 == s).unwrap().1;
+                let le = sniff(content);
+                sig.push(format!("le:{}", if le == "\n" { "lf" } else { "crlf" }));
+                let srcid = s.replace('/', "_").replace('.', "_");
+                let out = output_name(s);
+                for (f, data) in &c.imp.after.files {
+                    let is_gen = *f == out || f.contains(&format!("t{srcid}_"));
+                    if !is_gen {
+                        continue;
+                    }
+                    scans += 1;
+                    if let Some(pos) = scan_le(data, le) {
+                        let what = format!(
+                            "generated file `{f}` of source `{s}` (first line ends in {}) has a different line terminator at byte {pos}: {:?}",
+                            if le == "\n" { "LF" } else { "CRLF" },
+                            String::from_utf8_lossy(data)
+                        );
+                        rep.violation("oracle", &what, &replay_body(&c.before, &c.cfg, &c.cmds, &format!("# {what}\n")));
+                    }
+                }
+            }
+        }
+        let sig2: Vec<String> = sig.iter().filter(|x| x.starts_with("le:") || x.contains("tag-store") || x.starts_with("run") || x.starts_with("temp") || x.starts_with("include")).cloned().collect();
+        runner.cases[idx].sig = sig2;
+        if i == 0 {
+            rep.sample(format!("{} => {}: files {:?}", cfg.describe(), runner.cases[idx].imp.verdict, runner.cases[idx].imp.after.files.keys().collect::<Vec<_>>()));
+        }
+    }
+    rep.countn("generated_files_scanned", scans);
+    compare_all(&mut rep, &runner, &model, "C12", "C12.directive_output_one_ending, tag_content_one_ending, temp_content_one_ending, sniff_first_line");
+    runner.cleanup();
+    rep
+}
+
+pub fn run_c13(args: &Args) -> Report {
+    let mut rep = Report::new("C13", "M5", &args.replay_dir);
+    let model = Model::new(&args.model, &args.work);
+    let mut rng = Rng::new(args.seed.wrapping_mul(1000).wrapping_add(args.shard as u64).wrapping_add(0xC13));
+    let total = if args.thorough() { 30000 } else { 900 };
+    let n = total / args.shards.max(1);
+    // no include/after of *generated* files: the option legitimately changes a dependency's final line
+    // ending, which an includer then sees in the middle of its own output (the theorem is per file, same world)
+    let opts = GenOpts { error_pct: 5, crlf_pct: 40, deps: false, ..GenOpts::default() };
+    rep.rule = "each generated project (sources independent of each other: no include of generated files, see DESIGN C13) is built twice from the same tree, trailing newline on and off (sources ending in a text line, blank line, directive with / without newline-terminated output, no final newline, empty file; LF/CRLF). Oracle on the implementation: same verdict; every file other than the outputs byte-identical (temp files unchanged by the option); each output pair o_on, o_off satisfies o_on = o_off or o_on = o_off ++ le; for sources forced to end in an ordinary text line o_off ends with that line and o_on = o_off ++ le. Both runs are also compared with the model. distinct_nontrivial = distinct (end-of-file shape, line ending, relation observed).".to_string();
+    let mut runner = Runner::new(args, "c13");
+    for i in 0..n {
+        let mut p = gen_project(&mut rng, &opts);
+        // half of the cases: force the first source to end with an ordinary text line
+        let forced = rng.chance(1, 2);
+        let s0 = p.sources[0].clone();
+        if forced {
+            let c = p.file_mut(&s0).unwrap();
+            let le = sniff(c).to_string();
+            if !c.is_empty() && !c.ends_with(b"\n") {
+                c.extend_from_slice(le.as_bytes());
+            }
+            c.extend_from_slice(b"~\nEND of file");
+            if rng.chance(1, 2) {
+                c.extend_from_slice(le.as_bytes());
+            }
+        }
+        let mut outs: Vec<(Obs, RunCfg)> = vec![];
+        for trailing in [true, false] {
+            materialize(&p, &runner.dir);
+            let mut cfg = RunCfg::build_all();
+            cfg.trailing = trailing;
+            cfg.threads = 1 + rng.below(4);
+            let idx = runner.run_here(&cfg, &p.cmds, vec![], &format!("project #{i} trailing={trailing}"));
+            outs.push((runner.cases[idx].imp.clone(), cfg));
+        }
+        let (on, off) = (&outs[0].0, &outs[1].0);
+        let case = &runner.cases[runner.cases.len() - 1];
+        let mut fail: Option<String> = None;
+        let mut rel = vec![];
+        if on.verdict != off.verdict {
+            fail = Some(format!("verdict differs: trailing on `{}`, off `{}`", on.verdict, off.verdict));
+        } else if on.verdict == "ok" {
+            let outputs: Vec<String> = p.sources.iter().map(|s| output_name(s)).collect();
+            for (f, d_on) in &on.after.files {
+                let d_off = off.after.files.get(f);
+                if !outputs.contains(f) {
+                    if d_off != Some(d_on) {
+                        fail = Some(format!("file `{f}` (not an output, e.g. a temp file) differs between the two settings"));
+                    }
+                    continue;
+                }
+                let src = p.sources.iter().find(|s| &output_name(s) == f).unwrap();
+                let le = sniff(&p.files.iter().find(|x| &x.0 == src).unwrap().1);
+                match d_off {
+                    None => fail = Some(format!("output `{f}` missing with trailing off")),
+                    Some(d_off) => {
+                        let mut plus = d_off.clone();
+                        plus.extend_from_slice(le.as_bytes());
+                        if d_on == d_off {
+                            rel.push("same");
+                        } else if *d_on == plus {
+                            rel.push("plus-le");
+                        } else {
+                            fail = Some(format!("output `{f}`: on {:?} vs off {:?}: not equal up to one final line ending", String::from_utf8_lossy(d_on), String::from_utf8_lossy(d_off)));
+                        }
+                        if forced && *src == s0 && fail.is_none() {
+                            if !(d_off.ends_with(b"END of file") && *d_on == plus) {
+                                fail = Some(format!("source `{src}` ends with the ordinary line `END of file` but output off = {:?}, on = {:?}", String::from_utf8_lossy(d_off), String::from_utf8_lossy(d_on)));
+                            }
+                        }
+                    }
+                }
+            }
+        }
+        if let Some(what) = fail {
+            rep.violation("oracle", &what, &replay_body(&case.before, &case.cfg, &case.cmds, &format!("# pair check (run with trailing on and off): {what}\n")));
+        }
+        let endsig: Vec<String> = p.sig.iter().filter(|x| x.starts_with("ends-") || x.starts_with("empty-file")).cloned().collect();
+        let n_cases = runner.cases.len();
+        runner.cases[n_cases - 1].sig = vec![format!("{:?}|{:?}|forced={forced}", endsig, rel)];
+        if i == 0 {
+            rep.sample(format!("project #{i}: trailing on/off verdicts {}/{}; relations {:?}", on.verdict, off.verdict, rel));
+        }
+    }
+    compare_all(&mut rep, &runner, &model, "C13", "C13.trailing_only_final, C13.pass_trailing");
+    runner.cleanup();
+    rep
+}
+
+const C16_LINES: [&str; 22] = [
+    "TXTPP#runx y", "TXTPP#run\tx", "TXTPP #run x", "txtpp#run x", "-TXTPP#", "  -TXTPP#foo", "XTXTPP#includes a",
+    "plain text", "", "  indented", "trailing  ", "é ü 日本", "TXTPP#tagx", "#TXTPP", "// comment", "TAG1", "- item",
+    "\ttab\t", "a  b", "TXTPP#Write a", "TXTPP#temporary x", "x TXTPP# run",
+];
+
+pub fn run_c16(args: &Args) -> Report {
+    let mut rep = Report::new("C16", "M5", &args.replay_dir);
+    let model = Model::new(&args.model, &args.work);
+    let mut rng = Rng::new(args.seed.wrapping_mul(1000).wrapping_add(args.shard as u64).wrapping_add(0xC16));
+    let total = if args.thorough() { 30000 } else { 1000 };
+    let n = total / args.shards.max(1);
+    rep.rule = "two kinds of single-source cases over an alphabet rich in directive look-alikes. (identity) sources without any directive line (the model's detectFrom rejects every line): oracle = output bytes equal the source lines joined by the source's line ending, final newline per option. (write-escape) a random text L (first line without leading blank, no trailing blanks; may contain real directive lines, tag names in use, look-alikes) escaped as `-TXTPP#write L0 / -L1 / ...`, optionally after a stored tag whose name occurs in L: oracle = output equals L joined by the line ending (+ the rest of the file). LF/CRLF, with/without final newline, both trailing settings. All cases also compared with the model. distinct_nontrivial = distinct (kind, line-set shape, le, final newline, trailing).".to_string();
+    let mut runner = Runner::new(args, "c16");
+    let esc_extra = ["-TXTPP#run echo no", "TXTPP#include x", "-TXTPP#tag T", "  -TXTPP#write z", "TAG1 here", "-", "TXTPP#"];
+    for i in 0..n {
+        let crlf = rng.chance(1, 3);
+        let le = if crlf { "\r\n" } else { "\n" };
+        let final_nl = rng.chance(2, 3);
+        let trailing = !rng.chance(1, 3);
+        let kind = if rng.chance(1, 2) { "identity" } else { "escape" };
+        let nl = rng.below(6);
+        let mut lines: Vec<String> = (0..nl).map(|_| (*rng.pick(&C16_LINES)).to_string()).collect();
+        let mut src_lines: Vec<String> = vec![];
+        let expected_core: String;
+        let mut with_tag = false;
+        if kind == "identity" {
+            lines.retain(|l| txtpp::verif::Directive::detect_from(l).is_none());
+            // "a\n" + "" without final newline is the same text as "a" with one: keep the representation unique
+            if !final_nl && lines.last().map(|l| l.is_empty()).unwrap_or(false) {
+                lines.pop();
+            }
+            src_lines = lines.clone();
+            expected_core = lines.join(le);
+        } else {
+            if lines.is_empty() {
+                lines.push("x".to_string());
+            }
+            for l in lines.iter_mut() {
+                if rng.chance(1, 4) {
+                    *l = (*rng.pick(&esc_extra)).to_string();
+                }
+                *l = l.trim_end().to_string();
+            }
+            lines[0] = lines[0].trim_start().to_string();
+            with_tag = rng.chance(1, 3);
+            let mut exp: Vec<String> = vec![];
+            if with_tag {
+                src_lines.push("//TXTPP#tag TAG1".to_string());
+                src_lines.push("//TXTPP#write stored".to_string());
+            }
+            src_lines.push(format!("-TXTPP#write {}", lines[0]));
+            for l in &lines[1..] {
+                src_lines.push(format!("-{l}"));
+            }
+            exp.extend(lines.iter().cloned());
+            if with_tag {
+                src_lines.push("use TAG1.".to_string());
+            }
+            // write output has no final line ending of its own: the following text joins it (README splice rule)
+            expected_core = exp.join(le) + if with_tag { "use stored." } else { "" };
+        }
+        let mut content = src_lines.join(le).into_bytes();
+        if final_nl && !src_lines.is_empty() {
+            content.extend_from_slice(le.as_bytes());
+        }
+        // an empty identity source, or one whose first line is empty with LF, keeps the LF default
+        let le_eff = sniff(&content);
+        let p = Project { files: vec![("a.txt.txtpp".to_string(), content)], dirs: vec![], cmds: vec![], sources: vec!["a.txt.txtpp".into()], sig: vec![], expect_error: false };
+        materialize(&p, &runner.dir);
+        let mut cfg = RunCfg::build_all();
+        cfg.trailing = trailing;
+        cfg.threads = 1 + rng.below(3);
+        let idx = runner.run_here(&cfg, &p.cmds, vec![format!("{kind}|n={}|crlf={crlf}|fnl={final_nl}|tr={trailing}|tag={with_tag}", lines.len().min(4))], &format!("{kind} #{i}"));
+        let c = &runner.cases[idx];
+        // expected bytes, computed from the input text directly
+        let core = if le_eff == le { expected_core.clone() } else { expected_core.replace(le, le_eff) };
+        let mut expected = core.into_bytes();
+        let nonempty = if kind == "identity" { !src_lines.is_empty() } else { true };
+        if trailing && nonempty {
+            expected.extend_from_slice(le_eff.as_bytes());
+        }
+        let got = c.imp.after.files.get("a.txt");
+        if c.imp.verdict != "ok" || got != Some(&expected) {
+            let what = format!(
+                "{kind}: source {:?} must produce {:?} but the run gave verdict `{}` and output {:?}",
+                String::from_utf8_lossy(&p.files[0].1),
+                String::from_utf8_lossy(&expected),
+                c.imp.verdict,
+                got.map(|g| String::from_utf8_lossy(g).to_string())
+            );
+            rep.violation("oracle", &what, &replay_body(&c.before, &c.cfg, &c.cmds, &format!("# {what}\n")));
+        }
+        if i < 2 {
+            rep.sample(format!("{kind}: source {:?} => {:?}", String::from_utf8_lossy(&p.files[0].1), got.map(|g| String::from_utf8_lossy(g).to_string())));
+        }
+    }
+    compare_all(&mut rep, &runner, &model, "C16", "C16.no_directive_identity, C16.directive_output_inert");
+    runner.cleanup();
+    rep
+}
+
 /// replay a stored case: run the implementation and the model again
 pub fn replay(args: &Args, property: &str, path: &std::path::Path) -> Report {
     let mut rep = Report::new(property, "M5", &args.replay_dir);
